@@ -1,12 +1,15 @@
 /*UNIT
 {"props": ["C17"], "src": ["lib/trie.c"], "mode": "plain", "kind": "bounded",
- "bound": "key universe {b, bc, bcd, bd, c} (variant high: {b, b\\x80, \\x80, \\xff}, subsets of <= 2); every subset of <= 3 keys inserted in ascending and descending order by the real trie_put; one COMPLETE traversal (iter_create, iter_next until NULL, iter_free) without prefix and with each prefix from {b, bc, bd, c, x}",
+ "bound": "key universe {b, bc, bcd, bd, c} (variant high: {b, b\\x80, \\x80, \\xff}); every subset of <= 2 keys inserted in ascending and descending order by the real trie_put; one COMPLETE traversal (iter_create, iter_next until NULL, iter_free) without prefix and with each prefix from {b, bc, bd, c, x}",
  "unwind": 260, "object_bits": 12, "cbmc_flags": ["--no-malloc-may-fail"],
  "functions": ["trie_iter_create", "trie_iter_next", "trie_iter_free", "trie_node_next", "trie_lookup", "trie_node_ref", "trie_node_deref"],
  "restrict_fp": ["trie_notify.function_pointer_call.1/verif_notify_cb", "trie_notify.function_pointer_call.2/verif_notify_cb"],
  "stubs": ["map notifier callback (records calls)", "calloc/malloc/realloc (scripted: succeed)"],
- "expect_classes": ["assertion"], "timeout": 600,
- "variants": [{"vname": "ascii", "defines": []}, {"vname": "high", "defines": ["-DTR_HIGH"]}]}
+ "expect_classes": ["assertion"], "timeout": 400,
+ "variants": [{"vname": "ascii_a", "defines": ["-DTR_STATE_FROM=0", "-DTR_STATE_TO=10"]},
+              {"vname": "ascii_b", "defines": ["-DTR_STATE_FROM=10", "-DTR_STATE_TO=20"]},
+              {"vname": "ascii_c", "defines": ["-DTR_STATE_FROM=20", "-DTR_STATE_TO=32"]},
+              {"vname": "high", "tier": "thorough", "defines": ["-DTR_HIGH"]}]}
 */
 /* A complete iteration over every bounded trie state yields every present key exactly once, in ascending key
  * order (strcmp order: bytes compared as unsigned char), with its value; a prefix iterator yields exactly the
@@ -80,8 +83,8 @@ static void verif_case(unsigned mask, unsigned descending)
 	POST(key == NULL, "iteration ends after the last present key");
 	POST(got == expected, "a complete iteration yields every present key (with the prefix) exactly once");
 	trie_iter_free(it);
-	COVER(expected == TR_MAXSET && prefix == NULL);
-	COVER(expected == 2 && prefix != NULL);
+	COVER(expected == 2 && prefix == NULL);
+	COVER(expected >= 1 && prefix != NULL);
 	COVER(expected == 0 && prefix != NULL && mask != 0);
 	POST(verif_not_total == 0, "iterating announces nothing");
 	tr_check_state(t);
